@@ -126,7 +126,12 @@ class Pool:
             elif td["mode"] == 1:
                 t = Timing.create_with_regular_interval(mk_td(FAM, td["si"]), ts, off)
             else:
-                t = Timing.create_with_irregular_interval([mk_dtm(FAM, v) for v in td["tss"]])
+                lst = [mk_dtm(FAM, v) for v in td["tss"]]
+                t = Timing.create_with_irregular_interval(lst)
+                # a hostile caller goes on using (and changing) the list it passed in
+                lst.reverse()
+                lst.extend(lst[:1] * 2)
+                del lst[:1]
             self.timings[key] = t
         return self.timings[key]
 
@@ -223,6 +228,12 @@ def apply(pool, op):
             elif via == "from_array_1d":
                 dt = args.pop("dtype", None)
                 w = cls.from_array_1d(arr, dt, copy=op.get("copy", True), **args, **kw)
+            elif via == "from_array_2d":
+                # the op's array is row [row] of a 2-D array; the other rows hold other data
+                dt = args.pop("dtype", None)
+                k2, row = op.get("nrows", 2), op.get("row", 0)
+                arr2 = np.stack([np.array(arr) if j == row else np.zeros_like(arr) for j in range(k2)])
+                w = cls.from_array_2d(arr2, dt, copy=op.get("copy", True), **args, **kw)[row]
             else:
                 dt = args.pop("dtype", None)
                 w = cls.from_lines(arr, dt, copy=op.get("copy", True), **args, **kw)
@@ -425,9 +436,12 @@ class OnlineGen:
             start = rng.choice([0, 0, 1, 2])
             count = max(0, n - start)
             via = rng.choice(["ctor", "ctor", "from_array_1d" if kind != "D" else "from_lines"])
+            if kind != "D" and a["ndim"] == 1 and rng.random() < 0.15:
+                via = "from_array_2d"
             if force_ctor:
                 via = "ctor"
             op = {"op": "from_array", "kind": kind, "arr": a, "via": via, "copy": rng.random() < 0.5,
+                  "nrows": 3, "row": rng.randrange(3),
                   "dtype_req": rng.choice([None, None, a["dtype"], rng.choice(DTYPES)]) if via == "ctor" else rng.choice([None, a["dtype"]]),
                   "start": rng.choice([None, start, start, rand_iarg(rng, start)]),
                   "sc": rng.choice([None, None, count, rand_iarg(rng, count)]),
@@ -609,6 +623,8 @@ def opc(op):
         eff = dict(a)
         owns = a["form"] == "own"
         if via != "ctor":
+            if via == "from_array_2d":
+                owns = False          # a row of the caller's 2-D array unless copied
             if op.get("copy", True):
                 owns = True
             eff_dtype = a["dtype"] if dreq is None else dreq
